@@ -344,7 +344,9 @@ def stream_rows(seed, n, shape):
     for i in range(n):
         tg.pool = {"int": [], "num": [], "bool": []}
         k = r.random()
-        if shape == "product":      # (expand refuses a bare wrapper as a summand)
+        if shape == "powers":       # one sum base to powers that go up AND down
+            yield p.Power(p.Sum((x, [1, y, 2][(i // 6) % 3])), [3, 2, 4, 2, 5, 3][i % 6])
+        elif shape == "product":    # (expand refuses a bare wrapper as a summand)
             yield p.Sum((y, p.Product((y, p.CommonSubexpression(p.Product((i, x, 3)))))))
         elif k < 0.4:
             yield p.Sum((y, p.CommonSubexpression(p.Sum((i, x, 1)))))
@@ -364,7 +366,8 @@ def c_stream(ctx, case):
                  "commutative-fold": (CommutativeConstantFoldingMapper, "any"),
                  "flatten": (FlattenMapper, "any"),
                  "commutative-fold-products": (CommutativeConstantFoldingMapper, "product"),
-                 "distribute": (DistributeMapper, "product")}[which]
+                 "distribute": (DistributeMapper, "product"),
+                 "distribute-powers": (DistributeMapper, "powers")}[which]
     m = mk()
     rng = ctx.sub_rng("env", seed)
     box = [-2, -1, 1, 2, 3, F(7, 3), F(-5, 2)]
@@ -594,6 +597,15 @@ def workload(ctx):
                 e = p.Product(tuple(x for _ in range(w)))
                 ctx.run("C11.expand", (e, False))
                 ctx.run("C11.collect", (p.Sum((e, p.Product((2, e)))), frozenset()))
+        # one base to several powers in ONE expression, in every order (one mapper sees them all)
+        import itertools as _it
+        for base in (p.Sum((x, 1)), p.Sum((x, y)), p.Sum((p.Product((2, x)), p.Product((-1, y))))):
+            for order in _it.permutations((2, 3, 4)):
+                if ctx.mine("power-orders"):
+                    e = p.Sum(tuple(p.Power(base, n_) for n_ in order))
+                    ctx.count("power_order_shapes")
+                    ctx.run("C11.expand", (e, False))
+                    ctx.run("C11.expand", (p.Product((p.Power(base, order[0]), p.Sum((p.Power(base, order[1]), 1)))), False))
         # kinds of numbers in every constant position of the rewrites' fragment
         import numpy as np
         from fractions import Fraction
@@ -649,7 +661,7 @@ def workload(ctx):
             ctx.case(("stream", i), True, n=0)
             ctx.run("C11.stream", (rng.getrandbits(32), rng.randint(20, 100),
                                    ["fold", "commutative-fold", "flatten", "distribute",
-                                    "commutative-fold-products"][i % 5]))
+                                    "commutative-fold-products", "distribute-powers"][i % 6]))
         # contexts: every evaluable node type around sums/products
         tg = G.TypedGen(rng, hist=ctx.hist)
         for i in range(ctx.per_shard(ctx.pick(1500, 30000))):
@@ -666,6 +678,7 @@ def workload(ctx):
             ctx.count("handler:" + k, v)
         ctx.count("handler:TermCollector.split_term", tr.counts.get("TermCollector.split_term", 0))
     ctx.floor("wide_nodes", 100)
+    ctx.floor("power_order_shapes", 15)
     ctx.floor("kind_values", 800)
     ctx.floor("high_powers", 20)
     ctx.floor("stream:rows", 500)
